@@ -43,6 +43,23 @@ Proof. exact no_arg_write_find_plateaus. Qed.
 Theorem C09_Chopper_from_disk_chopper : no_arg_write F_cascade_Chopper_from_disk_chopper.
 Proof. exact no_arg_write_Chopper_from_disk_chopper. Qed.
 
+(* the low-level CIF interface: adding a ready-made chunk / loop (or a mapping) to a block, with or without a comment, writes
+   nothing but the block the method is called on; constructing blocks / loops / chunks only reads the caller's containers *)
+Theorem C09_Block_add : no_arg_write F_cif_Block_add.
+Proof. exact no_arg_write_Block_add. Qed.
+Theorem C09_Block_construction : no_arg_write F_cif_Block__new_.
+Proof. exact no_arg_write_Block_new. Qed.
+Theorem C09_Loop_construction : no_arg_write F_cif_Loop__new_.
+Proof. exact no_arg_write_Loop_new. Qed.
+(* the peak shapes behind GaussianModel / LorentzianModel / PseudoVoigtModel / CompositeModel.__call__ (their division-by-zero guard
+   included: whatever value the caller's scale has) *)
+Theorem C09_model_call : no_arg_write F_model_Model___call__.
+Proof. exact no_arg_write_Model_call. Qed.
+Theorem C09_gaussian : no_arg_write F_model__gaussian.
+Proof. exact no_arg_write__gaussian. Qed.
+Theorem C09_lorentzian : no_arg_write F_model__lorentzian.
+Proof. exact no_arg_write__lorentzian. Qed.
+
 (* (b) for every history (unbounded length) that only calls operations whose results the analysis found
    private, every result equals the pristine one *)
 Theorem C09_history_independent_on_private_ops : forall hist,
@@ -69,5 +86,7 @@ Print Assumptions C09_no_argument_is_written.
 Print Assumptions C09_two_theta.
 Print Assumptions C09_remove_peaks.
 Print Assumptions C09_DiskChopper_construction.
+Print Assumptions C09_Block_add.
+Print Assumptions C09_gaussian.
 Print Assumptions C09_history_independent_on_private_ops.
 Print Assumptions C09_scattering_params_shared_refuted.
